@@ -174,42 +174,66 @@ theorem ringIdx_spec (cap head len : Nat) (hc : 0 < cap) (hl : len ≤ cap) :
       · next hn2 => simp only [List.getElem_map, List.getElem_range]; simp at hn2; split <;> omega
       · next hn2 => simp only [List.getElem_range]; simp at hn2 ⊢; split <;> omega
 
-/-- FULL statement for `VecDeque` (what the property asks): for every capacity, head < capacity and length ≤ capacity the
-    slots shown are the slots of the logical sequence.  FALSE of the unchanged code (see the counterexample). -/
-def C06_vecdeque_ring_full : Prop :=
-  ∀ cap head len : Nat, head < cap → len ≤ cap →
-    dequeIdx cap head len = (List.range len).map (fun i => (head + i) % cap)
+/-- the two slot ranges `specialize` reads (head part at its slot, wrapped part at slot 0), chained, are `ringIdx` -/
+theorem ringIdx_ranges (cap head len : Nat) :
+    ringIdx cap head len =
+      (List.range (ringRanges cap head len).2.1).map ((ringRanges cap head len).1 + ·) ++
+        List.range (ringRanges cap head len).2.2 := by
+  unfold ringIdx ringRanges
+  simp only
+  generalize (if cap = 0 then 0 else head % cap) = ws
+  by_cases h : cap - ws ≥ len <;> simp [h]
 
-/-- named hypothesis of the partial theorem: the real capacity does not exceed `CAP_GUARD` -/
-def CapWithinGuard (cap : Nat) : Prop := (cap : Int) ≤ CAP_GUARD
-instance (cap : Nat) : Decidable (CapWithinGuard cap) := by unfold CapWithinGuard; exact inferInstance
+/-- both ranges lie inside the buffer and together hold `len` slots -/
+theorem ringRanges_bounds (cap head len : Nat) (hc : 0 < cap) (hl : len ≤ cap) :
+    (ringRanges cap head len).1 + (ringRanges cap head len).2.1 ≤ cap ∧ (ringRanges cap head len).2.2 ≤ cap ∧
+      (ringRanges cap head len).2.1 + (ringRanges cap head len).2.2 = len := by
+  have hlt : head % cap < cap := Nat.mod_lt _ hc
+  have hne : cap ≠ 0 := by omega
+  unfold ringRanges
+  simp only [hne, if_false]
+  split <;> simp <;> omega
 
-/-- **C06_vecdeque_ring_partial**: for every ring whose capacity is within the guard, every head and every length,
-    the decoder shows exactly the logical sequence (element `i` from slot `(head + i) % cap`). -/
-theorem C06_vecdeque_ring_partial (cap head len : Nat) (hc : 0 < cap) (hl : len ≤ cap) (hg : CapWithinGuard cap) :
-    dequeIdx cap head len = (List.range len).map (fun i => (head + i) % cap) := by
-  have hg' : (cap : Int) ≤ 10000 := hg
-  have hcg : CAP_GUARD = 10000 := rfl
+/-- **C06_vecdeque_ring** (full strength; repaired by 6655f7c): for EVERY capacity — also above CAP_GUARD —, every head and
+    every length up to the capacity the slots shown are the slots of the logical sequence (element `i` from slot
+    `(head + i) % cap`), cut after the first LEN_GUARD elements (the documented guard: a truncation, never other slots). -/
+theorem C06_vecdeque_ring (cap head len : Nat) (hc : 0 < cap) (hl : len ≤ cap) :
+    dequeIdx cap head len = (List.range (min len LEN_GUARD.toNat)).map (fun i => (head + i) % cap) := by
   have hlg : LEN_GUARD = 10000 := rfl
-  have h1 : ¬ ((cap : Int) > 10000) := by omega
-  have h2 : ¬ ((len : Int) > 10000) := by omega
-  simp only [dequeIdx, guardCap, guardLen, hcg, hlg, h1, h2, if_false, Int.toNat_natCast]
-  exact ringIdx_spec cap head len hc hl
+  unfold dequeIdx guardLen
+  rw [hlg]
+  split
+  · next h =>
+    have e : min len (10000 : Int).toNat = 10000 := by
+      have : (10000 : Int).toNat = 10000 := rfl
+      rw [this]; omega
+    rw [e]
+    exact ringIdx_spec cap head 10000 hc (by omega)
+  · next h =>
+    have e : min len (10000 : Int).toNat = len := by
+      have : (10000 : Int).toNat = 10000 := rfl
+      rw [this]; omega
+    rw [e, Int.toNat_natCast]
+    exact ringIdx_spec cap head len hc hl
 
-/-- **C06_vecdeque_ring_counterexample**: capacity 16000 (> CAP_GUARD), head 11990, 10 elements: the decoder reads slots
-    1990…1999 instead of 11990…11999 (`guard_cap` clamps the capacity BEFORE `head % cap`). Replayed on the real code:
-    corpus/C06/bigdeque.req, oracle key `vecdeque-capacity-above-guard-wrong-elements`. -/
-theorem C06_vecdeque_ring_counterexample : ¬ C06_vecdeque_ring_full := by
-  intro h
-  have := h 16000 11990 10 (by decide) (by decide)
-  revert this
-  decide
+/-- a deque no longer than the guard is shown whole, whatever its capacity -/
+theorem C06_vecdeque_ring_untruncated (cap head len : Nat) (hc : 0 < cap) (hl : len ≤ cap) (hg : (len : Int) ≤ LEN_GUARD) :
+    dequeIdx cap head len = (List.range len).map (fun i => (head + i) % cap) := by
+  rw [C06_vecdeque_ring cap head len hc hl]
+  have hlg : LEN_GUARD = 10000 := rfl
+  rw [hlg] at hg ⊢
+  have : (10000 : Int).toNat = 10000 := rfl
+  rw [this, Nat.min_eq_left (by omega)]
 
-example : dequeIdx 16000 11990 10 = [1990, 1991, 1992, 1993, 1994, 1995, 1996, 1997, 1998, 1999] := by decide
-example : CapWithinGuard 8 ∧ dequeIdx 8 6 5 = [6, 7, 0, 1, 2] := by decide
+/-- the witness of the repaired defect (capacity 16000 > CAP_GUARD, head 11990, 10 elements: the code as found read slots
+    1990…1999): slots 11990…11999.  Replayed on the real code: corpus/C06/bigdeque.req, oracle key
+    `vecdeque-capacity-above-guard-wrong-elements`. -/
+example : dequeIdx 16000 11990 10 = [11990, 11991, 11992, 11993, 11994, 11995, 11996, 11997, 11998, 11999] := by decide
+example : dequeIdx 8 6 5 = [6, 7, 0, 1, 2] := by decide
+example : ringRanges 8 6 5 = (6, 2, 3) := by decide
 
-/-- the order of clamp and modulo in the source is what the model transcribes (re-read from the source every run) -/
-theorem C06_vecdeque_clamp_order_tie : Gen.ValGuards.dequeClampBeforeMod = true := by decide
+/-- the source no longer clamps the capacity before `head % cap` (re-read from the source every run) -/
+theorem C06_vecdeque_clamp_order_tie : Gen.ValGuards.dequeClampBeforeMod = false := by decide
 
 /-! ## hashbrown: the control-byte scan yields exactly the full buckets, each once, in index order -/
 
@@ -303,48 +327,6 @@ theorem C06_hashbrown_bucket_location (ctrlAddr size i : Nat) (h : (i + 1) * siz
 
 /-! ## Enums: which variant is shown -/
 
-/-- FULL: the key under which the type parser files a variant equals the (unsigned) discriminant number the decoder reads
-    from memory — for every constant width and every value.  FALSE of the unchanged code. -/
-def C06_enum_discr_key_full : Prop := ∀ w t : Nat, 0 < w → t < 256 ^ w → discrKey w t = (t : Int)
-
-/-- named hypothesis: the top bit of the constant is clear -/
-def TopBitClear (w t : Nat) : Prop := t < 2 ^ (8 * w - 1)
-instance (w t : Nat) : Decidable (TopBitClear w t) := by unfold TopBitClear; exact inferInstance
-
-theorem C06_enum_discr_key_partial (w t : Nat) (h : TopBitClear w t) : discrKey w t = (t : Int) := by
-  unfold TopBitClear at h
-  simp [discrKey, toSigned, h]
-
-/-- `#[repr(u8)] enum E { A(u16) = 3, B = 255 }`: B is filed under -1, memory holds 255 -/
-theorem C06_enum_discr_key_counterexample : ¬ C06_enum_discr_key_full := by
-  intro h
-  have := h 1 255 (by decide) (by decide)
-  revert this
-  decide
-
-/-- FULL: every unsigned enumerator constant of a C-like enum gets a key (so the variant can be shown).  FALSE. -/
-def C06_cenum_const_key_full : Prop := ∀ raw : Nat, raw < 2 ^ 64 → constKey raw = some (raw : Int)
-
-def FitsI64 (raw : Nat) : Prop := raw < 2 ^ 63
-instance (raw : Nat) : Decidable (FitsI64 raw) := by unfold FitsI64; exact inferInstance
-
-theorem C06_cenum_const_key_partial (raw : Nat) (h : FitsI64 raw) : constKey raw = some (raw : Int) := by
-  unfold FitsI64 at h; simp [constKey, h]
-
-/-- `#[repr(u64)] enum B { P = 1, Q = 9223372036854775808 }`: Q gets no key and is dropped from the table -/
-theorem C06_cenum_const_key_counterexample : ¬ C06_cenum_const_key_full := by
-  intro h
-  have := h 9223372036854775808 (by decide)
-  revert this
-  decide
-
-/-- FULL: every integer discriminant the decoder can read selects by its numeric value.  FALSE: 128-bit discriminants. -/
-def C06_enum_select_full : Prop :=
-  ∀ (k : IK) (v : Int), -(2 ^ 63 : Int) ≤ v → v < 2 ^ 63 → (Scalar.num k v).asNumber = some v
-
-def NotWide (k : IK) : Prop := k ≠ .i128 ∧ k ≠ .u128
-instance (k : IK) : Decidable (NotWide k) := by unfold NotWide; exact inferInstance
-
 theorem wrapI64_id (v : Int) (lo : -(2 ^ 63 : Int) ≤ v) (hi : v < 2 ^ 63) : wrapI64 v = v := by
   unfold wrapI64 toSigned
   have e64 : ((2 ^ 64 : Nat) : Int) = 18446744073709551616 := by decide
@@ -360,24 +342,106 @@ theorem wrapI64_id (v : Int) (lo : -(2 ^ 63 : Int) ≤ v) (hi : v < 2 ^ 63) : wr
       Int.emod_eq_of_lt (by omega) (by omega)
     rw [h1, h2]; split <;> omega
 
-/-- **C06_enum_select_partial**: every discriminant of at most 64 bits selects by its numeric value -/
-theorem C06_enum_select_partial (k : IK) (v : Int) (lo : -(2 ^ 63 : Int) ≤ v) (hi : v < 2 ^ 63) (h : NotWide k) :
+/-- integer kinds of at most 64 bits -/
+def NotWide (k : IK) : Prop := k ≠ .i128 ∧ k ≠ .u128
+instance (k : IK) : Decidable (NotWide k) := by unfold NotWide; exact inferInstance
+
+theorem pow256_le (w : Nat) (hw : w ≤ 8) : 256 ^ w ≤ 2 ^ 64 := by
+  have : (2 : Nat) ^ 64 = 256 ^ 8 := by decide
+  rw [this]; exact Nat.pow_le_pow_right (by decide) hw
+
+theorem constMask_id (w t : Nat) (hw : 0 < w) (hw8 : w ≤ 8) (ht : t < 256 ^ w) : t % 2 ^ constMaskBits w = t := by
+  apply Nat.mod_eq_of_lt
+  unfold constMaskBits
+  split
+  · have : (2 : Nat) ^ (8 * w) = 256 ^ w := by
+      have : (256 : Nat) = 2 ^ 8 := by decide
+      rw [this, ← Nat.pow_mul]
+    rw [this]; exact ht
+  · exact Nat.lt_of_lt_of_le ht (pow256_le w hw8)
+
+/-- **C06_enum_discr_key** (full strength; repaired by c9ce198): the key under which the type parser files a variant of an
+    enum with an UNSIGNED tag equals the discriminant number the decoder reads from memory (`try_as_number` of the tag) — for
+    every tag width up to 8 bytes and EVERY value, top bit set or not (`#[repr(u8)] … B = 255`: key 255, memory 255;
+    a u64 tag ≥ 2^63: both sides the same negative i64). -/
+theorem C06_enum_discr_key (w t : Nat) (k : IK) (hw : 0 < w) (hw8 : w ≤ 8) (ht : t < 256 ^ w) (hk : NotWide k) :
+    some (discrKey w t) = (Scalar.num k (t : Int)).asNumber := by
+  unfold NotWide at hk
+  simp [discrKey, intConstData, Scalar.asNumber, hk.1, hk.2, constMask_id w t hw hw8 ht]
+
+/-- … and for tags narrower than 8 bytes the key IS the unsigned value -/
+theorem C06_enum_discr_key_value (w t : Nat) (hw : 0 < w) (hw7 : w ≤ 7) (ht : t < 256 ^ w) : discrKey w t = (t : Int) := by
+  have h56 : 256 ^ w ≤ 256 ^ 7 := Nat.pow_le_pow_right (by decide) hw7
+  have e : (256 : Nat) ^ 7 = 72057594037927936 := by decide
+  have e63 : (2 : Int) ^ 63 = 9223372036854775808 := by decide
+  simp only [discrKey, intConstData, constMask_id w t hw (by omega) ht]
+  exact wrapI64_id _ (by omega) (by rw [e63]; omega)
+
+/-- the witness of the repaired defect: `B = 255` of a `repr(u8)` enum was filed under -1 -/
+example : discrKey 1 255 = 255 := by decide
+/-- a constant of a SIGNED tag keeps gimli's sign extension: `-1i8` in `DW_FORM_data1` -/
+example : intConstData none 1 255 = -1 := by decide
+
+/-- **C06_cenum_const_key** (full strength; repaired by c9ce198): every enumerator constant of a C-like enum with an unsigned
+    underlying type gets a key, and it is the number `try_as_number` makes of the value in memory — also above i64::MAX
+    (`#[repr(u64)] … Q = 9223372036854775808`). -/
+theorem C06_cenum_const_key (raw : Nat) (k : IK) (h : raw < 2 ^ 64) (hk : NotWide k) :
+    constKey raw = (Scalar.num k (raw : Int)).asNumber := by
+  unfold NotWide at hk
+  have hm : raw % 2 ^ constMaskBits 8 = raw := Nat.mod_eq_of_lt (by simpa [constMaskBits] using h)
+  simp [constKey, intConstUdata, Scalar.asNumber, hk.1, hk.2, hm]
+
+theorem C06_cenum_const_key_value (raw : Nat) (h : raw < 2 ^ 63) : constKey raw = some (raw : Int) := by
+  have hm : raw % 2 ^ constMaskBits 8 = raw := Nat.mod_eq_of_lt (by simp [constMaskBits]; omega)
+  have e63 : (2 : Int) ^ 63 = 9223372036854775808 := by decide
+  simp only [constKey, intConstUdata, hm]
+  rw [wrapI64_id _ (by omega) (by rw [e63]; omega)]
+
+/-- the witness of the repaired defect: the enumerator 2^63 was dropped; now it is filed under the i64 with the same bits, which is
+    what the u64 read from memory becomes -/
+example : constKey 9223372036854775808 = some (-9223372036854775808) := by decide
+example : (Scalar.num .u64 9223372036854775808).asNumber = some (-9223372036854775808) := by decide
+
+/-- **C06_enum_select** (full strength; repaired by 1f84510): every integer discriminant the decoder can read — 128-bit tags
+    included — selects by its numeric value. -/
+theorem C06_enum_select (k : IK) (v : Int) (lo : -(2 ^ 63 : Int) ≤ v) (hi : v < 2 ^ 63) :
     (Scalar.num k v).asNumber = some v := by
-  unfold NotWide at h
-  simp [Scalar.asNumber, h.1, h.2, wrapI64_id v lo hi]
+  have e63 : (2 : Int) ^ 63 = 9223372036854775808 := by decide
+  have lo' : (-9223372036854775808 : Int) ≤ v := by rw [e63] at lo; omega
+  have hi' : v < 9223372036854775808 := by rw [e63] at hi; omega
+  have h64 : v < 18446744073709551616 := by omega
+  simp only [Scalar.asNumber]
+  by_cases h1 : k = .i128
+  · subst h1; simp [lo', hi']
+  · by_cases h2 : k = .u128
+    · subst h2; simp [h64, wrapI64_id v lo hi]
+    · simp [h1, h2, wrapI64_id v lo hi]
 
-/-- `Option<u128>`: the tag is a u128, `try_as_number` refuses it, no variant is shown -/
-theorem C06_enum_select_counterexample : ¬ C06_enum_select_full := by
-  intro h
-  have := h .u128 1 (by decide) (by decide)
-  revert this
-  decide
+/-- the 16-byte block constant of a 128-bit tag (`DW_AT_discr_value` of `Option<u128>`) is filed under the same number the
+    decoder reads from the tag in memory -/
+theorem C06_enum_wide_key (t : Nat) (h : t < 2 ^ 64) :
+    wideConst true (leBytes 16 t) = (Scalar.num .u128 (t : Int)).asNumber := by
+  have h16 : t < 256 ^ 16 := Nat.lt_of_lt_of_le h (by decide)
+  have hl : (leBytes 16 t).length = 16 := leBytes_length 16 t
+  have hne : (leBytes 16 t).isEmpty = false := by
+    cases hq : leBytes 16 t with
+    | nil => rw [hq] at hl; simp at hl
+    | cons _ _ => rfl
+  have hi : (t : Int) < 18446744073709551616 := by omega
+  simp [wideConst, hl, hne, C06_scalar_unsigned 16 t h16, h, Scalar.asNumber, hi]
 
-/-- the variant the decoder shows for discriminant number `v`: the one keyed `v`, else the default one -/
-def selectVariant (enums : List (Option Int × Member)) (v : Int) : Option Member :=
-  match enums.find? (·.1 == some v) with
-  | some e => some e.2
-  | none => (enums.find? (·.1 == none)).map (·.2)
+/-- `Option<u128>`: `None` = block 0, `Some` = block 1; memory tag 1 selects key 1 -/
+example : wideConst true (leBytes 16 1) = some 1 ∧ (Scalar.num .u128 1).asNumber = some 1 := by decide
+
+/-- **C06_enum_single_variant** (repaired by 4796f22): an enum without discriminant member that has one variant shows it,
+    whatever is (not) read as discriminant -/
+theorem C06_enum_single_variant (e : Option Int × Member) (dv : Option Int) : chooseVariant none [e] dv = some e.2 := by
+  simp [chooseVariant]
+
+/-- with a discriminant member the variant is selected by the number read from memory -/
+theorem C06_enum_by_discriminant (m : Member) (enums : List (Option Int × Member)) (v : Int) :
+    chooseVariant (some m) enums (some v) = selectVariant enums v := by
+  simp [chooseVariant]
 
 /-- **C06_enum_no_foreign_variant**: whatever the table, the variant shown for number `v` is keyed `v` or is the default
     (niche) variant — never a variant keyed with a different number -/
@@ -498,15 +562,16 @@ example : (inorder exC exLm exIm 1 1 0 1000).map (fun kv => (kv.1.bytes, kv.2.by
 
 /-! ## Collections show exactly their elements -/
 
-/-- **C06_collections_exact (VecDeque)**: the slots shown are pairwise distinct and as many as the length:
-    no element missing, none shown twice -/
-theorem C06_collections_exact_deque (cap head len : Nat) (hc : 0 < cap) (hl : len ≤ cap) (hg : CapWithinGuard cap) :
-    (dequeIdx cap head len).length = len ∧ (dequeIdx cap head len).Nodup := by
-  rw [C06_vecdeque_ring_partial cap head len hc hl hg]
+/-- **C06_collections_exact (VecDeque)**: the slots shown are pairwise distinct and as many as the length (up to the
+    guard): no element missing, none shown twice — for every capacity -/
+theorem C06_collections_exact_deque (cap head len : Nat) (hc : 0 < cap) (hl : len ≤ cap) :
+    (dequeIdx cap head len).length = min len LEN_GUARD.toNat ∧ (dequeIdx cap head len).Nodup := by
+  rw [C06_vecdeque_ring cap head len hc hl]
   refine ⟨by simp, ?_⟩
   rw [List.Nodup, List.pairwise_iff_getElem]
   intro i j hi hj hij
-  have hj' : j < len := by simpa using hj
+  have hj' : j < min len LEN_GUARD.toNat := by simpa using hj
+  have hjl : j < len := by omega
   have hi' : i < len := by omega
   simp only [List.getElem_map, List.getElem_range]
   intro heq
